@@ -16,7 +16,9 @@ DOCS = [["/etc/leading/slash"], [" ends with a star *"], ["*/"], [" first", "/se
         [" one line"], [" first", " second"], [" with `code` and <b>tags</b>"], ["no leading space"], [" contains */ a terminator"],
         [" quote \" and backslash \\ "], ["\n multi\n line block\n "], [" unicode ü → ✓"], [""], [" export type Fake = 1;"],
         # one attribute holding several lines (the `/** .. */` branch of parse_docs) x what it begins / ends with
-        ["/etc/app/limits.toml\nsecond line"], ["/\n"], ["/**/\n/"], ["*/\n/"], [" a\n/b\n*/c"], ["*\n"], ["/*\n*/"], [" x\n *"]]
+        ["/etc/app/limits.toml\nsecond line"], ["/\n"], ["/**/\n/"], ["*/\n/"], [" a\n/b\n*/c"], ["*\n"], ["/*\n*/"], [" x\n *"],
+        # several attributes, one of them holding several lines x what the continuation line begins with
+        [" Where:", " first, then\n/etc/app/config.toml"], [" a", "b\n/"], [" x\n/**", " y"], ["\n/", ""], [" p\n*/ q", "/r"], [" k\n\n/ after blank", " z"]]
 EXPORT_TO = [None, None, None, "sub/", "nested/deep/", "custom/File.ts", "../up/", "shared.ts", "shared.ts", "sub/shared2.ts"]
 
 
@@ -416,6 +418,11 @@ class Gen:
         self.add(mk_struct("Point2", "named", [mk_field("x", ("leaf", "f64")), mk_field("y", ("leaf", "f64"))],
                            export_to="geo/geometry.ts", flatten_ok=False, no_ref=True))
         self.add(mk_struct("Origin", "unit", [], export_to="geo/geometry.ts", flatten_ok=False, no_ref=True))
+        # names that differ only in case, and a name that is a prefix of another, in one file
+        self.add(mk_struct("CaseTwinA", "named", [mk_field("v", ("leaf", "u8"))], rename="Id", export_to="case/ids.ts", flatten_ok=False, no_ref=True))
+        self.add(mk_struct("CaseTwinB", "tuple", [mk_field("_0", ("leaf", "String"))], rename="ID", export_to="case/ids.ts", flatten_ok=False, no_ref=True))
+        self.add(mk_struct("CaseTwinC", "named", [mk_field("a", ("named", "CaseTwinA", [])), mk_field("b", ("named", "CaseTwinB", []))], rename="iD",
+                           export_to="case/ids.ts", flatten_ok=False, no_ref=True))
         # the same shared file under another spelling (a `..` component), referring to its file-mates and to a type elsewhere
         self.add(mk_struct("Segment", "named", [mk_field("a", ("named", "Point2", [])), mk_field("b", ("named", "Point", [("leaf", "i32")])),
                                                 mk_field("o", ("named", "Origin", [])), mk_field("c", ("named", "Color", []))],
@@ -472,7 +479,7 @@ class Gen:
         `inline` removed; `twin_of` / `twin_kind` record the relation"""
         import copy
         for d in list(self.defs):
-            if d.get("no_ref") and not d["ident"].startswith("Opt"):
+            if d.get("no_ref") and not d["ident"].startswith(("Opt", "OneHost", "TagHost")):
                 continue
             fs = d["fields"] if d["kind"] == "struct" else [f for v in d["variants"] for f in v["fields"]]
             if any(f["as_"] is not None for f in fs):
@@ -496,6 +503,19 @@ class Gen:
                 for f in (t["fields"] if t["kind"] == "struct" else [f for v in t["variants"] for f in v["fields"]]):
                     f["docs"] = []
                 t["twin_of"], t["twin_kind"], t["no_ref"] = d["ident"], "docs", True
+                self.add(t)
+            if d["kind"] == "struct" and d["shape"] == "named" and not d["params"] and not d["tag"] and not d["type"] and not d["as_"] \
+                    and any(f["flatten"] for f in d["fields"]) and any(not f["flatten"] and not f["skip"] for f in d["fields"]) \
+                    and all(f["ty"][0] == "named" and not f["ty"][2] for f in d["fields"] if f["flatten"]):
+                # flatten twin (C14): the host without its flattened fields, under a name of its own; the host must denote
+                # the intersection of this twin with the flattened types
+                t = copy.deepcopy(d)
+                t["ident"] = d["ident"] + "TwFl"
+                t["rename"] = None
+                t["export_to"] = "twins/%sTwFl.ts" % d["ident"]
+                t["fields"] = [f for f in t["fields"] if not f["flatten"]]
+                t["twin_of"], t["twin_kind"], t["no_ref"], t["flatten_ok"] = d["ident"], "flatten", True, False
+                t["flattened"] = [f["ty"][1] for f in d["fields"] if f["flatten"]]
                 self.add(t)
             if any(f["inline"] for f in fs) and not any(f["as_"] is not None or f["type"] is not None for f in fs):
                 t = copy.deepcopy(d)
@@ -627,7 +647,13 @@ class Values:
                 if any(v is None for v in fs):
                     return None
                 return (self.struct_expr(d["ident"], d["shape"], d["fields"], fs), "(VStruct %s)" % C.coq_list([v[1] for v in fs]))
-            idx = variant if variant is not None else r.randrange(len(d["variants"]))
+            if variant is not None:
+                idx = variant
+            else:
+                # nested enums rotate through their variants (every arm is reached within a few values), with some noise
+                rot = self.__dict__.setdefault("rot", {})
+                rot[d["ident"]] = rot.get(d["ident"], -1) + 1
+                idx = rot[d["ident"]] % len(d["variants"]) if r.random() < 0.8 else r.randrange(len(d["variants"]))
             v = d["variants"][idx]
             fs = [self.value(C.subst(f.get("serde_ty", f["ty"]), t[2]), depth + 1) for f in v["fields"]]
             if any(x is None for x in fs):
